@@ -3,7 +3,7 @@ import ast
 import re
 
 from .absint import Domain, Interp, NORMAL, RETURN, RAISE, is_raise
-from .astutil import method_call, unparse, parent, in_subtree, is_self_call
+from .astutil import method_call, unparse, parent, in_subtree, is_self_call, keytext
 from .index import dotted, walk_local
 from .loader import AnalysisError
 from .httpx import HT, HS, HC
@@ -101,7 +101,7 @@ def consume_facts(run, f, buffers):
     for node, buf, k, ok, st in dom.consumes:
         if buf not in buffers:
             continue
-        key = "consume:%s[:%s]" % (buf, k)
+        key = "consume:%s[:%s]" % (buf, keytext(f, k))
         prev = out.get(key)
         out[key] = (ok and (prev[0] if prev else True), node)
     return [(k, ok, run.site(f, node),
@@ -442,14 +442,19 @@ def chunk_codec_facts(run):
         facts.append(("chunk:" + k, okc, site, what))
     takes = [n for n in walk_local(parse.node) if isinstance(n, ast.Assign) and isinstance(n.value, ast.Subscript)
              and dotted(n.value.value) == "raw" and isinstance(n.value.slice, ast.Slice)]
-    ok = any(unparse(n.value.slice) == ":size" for n in takes)
+    sizevars = {t.id for n in walk_local(parse.node) if isinstance(n, ast.Assign) and n.value in conv for t in n.targets if isinstance(t, ast.Name)}
+    lineparsers = {n.targets[0].id for n in walk_local(parse.node) if isinstance(n, ast.Assign) and isinstance(n.targets[0], ast.Name)
+                   and isinstance(n.value, ast.Call) and (dotted(n.value.func) or "").endswith("parseLine")}
+    linevars = {n.targets[0].id for n in walk_local(parse.node) if isinstance(n, ast.Assign) and isinstance(n.targets[0], ast.Name)
+                and isinstance(n.value, ast.Call) and dotted(n.value.func) == "next" and n.value.args and dotted(n.value.args[0]) in lineparsers}
+    ok = any(n.value.slice.lower is None and dotted(n.value.slice.upper) in sizevars for n in takes)
     facts.append(("chunk:takes-exactly-size", ok, run.site(parse), "" if ok else "the chunk taken from the buffer is %s, expected raw[:size]" % [unparse(n.value) for n in takes]))
-    ends = [n for n in walk_local(parse.node) if isinstance(n, ast.If) and dotted(n.test) == "line" and n.body and isinstance(n.body[-1], ast.Raise)]
+    ends = [n for n in walk_local(parse.node) if isinstance(n, ast.If) and dotted(n.test) in linevars and n.body and isinstance(n.body[-1], ast.Raise)]
     facts.append(("chunk:end-line-must-be-empty", bool(ends), run.site(parse), "" if ends else "a non-empty line after the chunk data is not rejected"))
     # last chunk goes through parseLeader for trailers
     ok = False
     for n in walk_local(parse.node):
-        if isinstance(n, ast.If) and isinstance(n.test, ast.Compare) and dotted(n.test.left) == "size" and getattr(n.test.comparators[0], "value", 1) == 0 \
+        if isinstance(n, ast.If) and isinstance(n.test, ast.Compare) and dotted(n.test.left) in sizevars and getattr(n.test.comparators[0], "value", 1) == 0 \
                 and isinstance(n.test.ops[0], ast.Eq):
             ok = any(isinstance(c, ast.Call) and (dotted(c.func) or "").endswith("parseLeader") for st in n.body for c in ast.walk(st))
     facts.append(("chunk:last-chunk-trailers", ok, run.site(parse), "" if ok else "the zero-size chunk does not parse trailers with parseLeader"))
@@ -478,7 +483,7 @@ def take_consume_facts(run, f, buffers):
                    and dotted(s.targets[0].value) == buf]
             got = unparse(nxt[0].targets[0].slice) if nxt else None
             ok = got == ":" + k
-            facts.append(("take-consume:%s[:%s]" % (buf, k), ok, run.site(f, n),
+            facts.append(("take-consume:%s[:%s]" % (buf, keytext(f, k)), ok, run.site(f, n),
                           "" if ok else "`%s` takes %s[:%s] but the following consumption is %s[%s]: bytes beyond (or short of) the token are removed "
                           "from the buffer, so what was already received of the next message is lost" % (unparse(n), buf, k, buf, got)))
         if isinstance(n, ast.Delete) and isinstance(n.targets[0], ast.Subscript) and dotted(n.targets[0].value) in buffers \
@@ -510,7 +515,7 @@ def subparser_facts(run, f):
                     guards.append(unparse(loop.test))
                 loop = parent(loop)
             if loop is None or loop is f.node:
-                facts.append(("subparser:%s:%s" % (name, callee), True, run.site(f, n), ""))
+                facts.append(("subparser:%s" % callee, True, run.site(f, n), ""))
                 continue
             # does that same loop (not a nested one) wait and advance the generator?
             waits = advances = False
@@ -526,7 +531,7 @@ def subparser_facts(run, f):
                 stack.extend(ast.iter_child_nodes(x))
             guarded = any(g.replace(" ", "") in ("%sisNone" % name, "not%s" % name) for g in guards)
             ok = not (waits and advances) or guarded
-            facts.append(("subparser:%s:%s" % (name, callee), ok, run.site(f, n),
+            facts.append(("subparser:%s" % callee, ok, run.site(f, n),
                           "" if ok else "`%s` is created inside the very loop that waits (`yield None`) and advances it: after every wait a fresh %s "
                           "is made and whatever the previous one had already consumed from the buffer is forgotten, so the result depends on where "
                           "the input was split" % (unparse(n), callee)))
